@@ -230,9 +230,17 @@ def finish(pid, tier, results, wall, verbose=True):
 def relock(pids, run_property):
     lock = load_json(LOCK, {})
     for pid in pids:
+        # the old entry is dropped first: renamed / re-anchored obligations must not block a relock
+        if pid in lock:
+            stale = dict(lock)
+            del stale[pid]
+            with open(LOCK, 'w') as f:
+                json.dump(stale, f, indent=1, sort_keys=True)
         rc = run_property(pid, 'quick', None, verbose=True)
         if rc != 0:
-            print(f'refusing to lock {pid}: exit {rc}')
+            print(f'refusing to lock {pid}: exit {rc} (previous entry kept)')
+            with open(LOCK, 'w') as f:
+                json.dump(lock, f, indent=1, sort_keys=True)
             continue
         ev = json.load(open(os.path.join(EVIDENCE_DIR, f'{pid}.json')))
         lock[pid] = sorted(o['name'] for o in ev['coverage']['obligation_list'])
